@@ -1203,6 +1203,30 @@ func (fr *Frame) checkInvariant(li *loopInfo, from *ssa.BasicBlock, cond string,
 	}
 }
 
+// clauses of the form "loop#N backedge <expr>" are asserted at the end of every iteration, in the scope of
+// the block the back edge leaves (the locals of the body are visible); they are never assumed
+func (fr *Frame) checkBackedge(li *loopInfo, from *ssa.BasicBlock, cond string, heap Heap) {
+	if fr.contract == nil {
+		return
+	}
+	vc := fr.vc
+	for i, cl := range fr.contract.LoopBack[li.ordinal] {
+		env := fr.envAt(from, true, nil)
+		env.heap = heap
+		t, err := env.evalBool(cl.Expr)
+		if err != nil {
+			vc.specError(fr.fn, cl, err)
+			continue
+		}
+		name := fmt.Sprintf("%s/backedge/loop#%d:%s/edge%d", fnName(fr.fn), li.ordinal, clauseId(cl, i), fr.edgeOrdinal(li, from, "pres"))
+		if fr.path != "" {
+			name += "@" + fr.path
+		}
+		o := vc.oblige("inv-pres", name, cl.Tags, cond, t, fr.fn, li.head.Instrs[0].Pos(), cl.Src)
+		o.Extra = map[string]string{"contract": fmt.Sprintf("%s:%d", cl.File, cl.Line)}
+	}
+}
+
 func (fr *Frame) edgeOrdinal(li *loopInfo, from *ssa.BasicBlock, which string) int {
 	n := 0
 	for _, p := range li.head.Preds {
@@ -1339,6 +1363,7 @@ func (fr *Frame) block(b *ssa.BasicBlock, ov *headOverride) {
 			if l2 := fr.loops[s.Index]; l2 != nil && !fr.unrolling[s.Index] {
 				c := fr.edge[[2]int{b.Index, s.Index}]
 				fr.checkInvariant(l2, b, c, fr.heap, "pres")
+				fr.checkBackedge(l2, b, c, fr.heap)
 			}
 		}
 	}
